@@ -1,6 +1,6 @@
 use std::collections::HashMap;
 
-use crate::ast::Definition;
+use crate::ast::{Definition, Expression, FillMeta};
 use crate::file_definition::{FileID, FileLibrary};
 use crate::function_data::{FunctionData, FunctionInfo};
 use crate::template_data::{TemplateData, TemplateInfo};
@@ -11,6 +11,9 @@ pub struct TemplateLibrary {
     pub functions: FunctionInfo,
     pub templates: TemplateInfo,
     pub file_library: FileLibrary,
+    /// The instantiation of the main component and the file it is in, if the files contain
+    /// exactly one main component (but cannot be assembled into a program).
+    pub main_component: Option<(FileID, Expression)>,
 }
 
 impl TemplateLibrary {
@@ -73,7 +76,15 @@ impl TemplateLibrary {
                 }
             }
         }
-        TemplateLibrary { functions, templates, file_library }
+        TemplateLibrary { functions, templates, file_library, main_component: None }
+    }
+
+    #[must_use]
+    pub fn with_main_component(mut self, file_id: FileID, call: &Expression) -> TemplateLibrary {
+        let mut call = call.clone();
+        call.fill(file_id, &mut 0);
+        self.main_component = Some((file_id, call));
+        self
     }
     // Template methods.
     pub fn contains_template(&self, template_name: &str) -> bool {
